@@ -351,7 +351,7 @@ func cmdCheck(args []string) int {
 	}
 	if *dump != "" {
 		for i, o := range obls {
-			if o.Result != "unsat" && o.Q != nil && o.Solver != "static" {
+			if (o.Result != "unsat" || os.Getenv("TVC_DUMP_ALL") != "") && o.Q != nil && o.Solver != "static" {
 				os.WriteFile(filepath.Join(*dump, fmt.Sprintf("%03d_%s.smt2", i, mangle(o.Name))), []byte(o.Q.query(o.Prefix, nil, and(o.Reach, not(o.Goal)), o.Values)), 0o644)
 			}
 		}
